@@ -27,6 +27,7 @@ import numpy as np
 
 from .. import core
 from .. import comp_common as cc
+from .. import comp_trace
 
 TABS = None
 LTS = None          # key -> list of (act, to_key, to_state)
@@ -354,23 +355,28 @@ def explore_chunk(args):
 
 
 def derived_lts(run, classes, maxops, maxsize, name):
-    c = core.cfg(constants=dict(Classes=set(classes), K=TABS.K, MaxWord=2, MaxOps=maxops, MaxSize=maxsize),
-                 invariants=["TypeOK", "Coherent"], view="View", action_constraints=["Emit"])
-    r = run.tlc("comp/Derived.tla", c, name=name, workers=min(8, core.NCPU))
-    lts = {}
+    """labelled transition system of Derived.tla. The stuttering query actions are taken from a run with MaxOps = 0
+    (they are enabled in every built state; leaving them out of the big run keeps its output small)."""
+    def go(ops, withq, nm):
+        c = core.cfg(constants=dict(Classes=set(classes), K=TABS.K, MaxWord=2, MaxOps=ops, MaxSize=maxsize, WithQueries=withq),
+                     invariants=["TypeOK", "Coherent"], view="View", action_constraints=["Emit"])
+        return run.tlc("comp/Derived.tla", c, name=nm, workers=min(8, core.NCPU))
     queries = {}
+    for e in go(0, True, name + "_queries").emits:
+        if e["act"]["a"] == "query":
+            queries.setdefault(e["from"]["cls"], set()).add(e["act"]["q"])
+    lts = {}
     seen = set()
+    r = go(maxops, False, name)
     for e in r.emits:
         fk, tk = skey(e["from"]), skey(e["to"])
         a = e["act"]
-        if a["a"] == "query":
-            queries.setdefault(e["from"]["cls"], set()).add(a["q"])
-            continue
         sig = (fk, json.dumps(a, sort_keys=True), tk)
         if sig in seen:
             continue
         seen.add(sig)
         lts.setdefault(fk, []).append((a, tk, e["to"]))
+    r.emits = None
     if not lts or not queries:
         raise core.MachineryFailure("Derived.tla emitted no transitions")
     return lts, {c: sorted(q) for c, q in queries.items()}
@@ -498,3 +504,8 @@ def run(run, replay=None):
     run.nontrivial_count += tot
     run.traces += tot
     run.actions["setitem(all shapes)"] = tot
+    # code -> spec: random long histories on larger shapes, validated by TLC against CompositeTrace.tla
+    nhist = 300 if quick else 4000
+    traces, meta, errors = comp_trace.record(TABS, random.Random(run.seed + 11), DERIVED_CLASSES, (2, 3), nhist, 10,
+                                             query_fn=run_query, queries=QUERIES)
+    comp_trace.validate_and_report(run, traces, meta, errors, clause="trace")
